@@ -71,6 +71,22 @@ where
     engine.register_executor::<Fw, _>(Arc::new(FwExec(ctx.clone())));
     engine.register_executor::<Pj, _>(Arc::new(PjExec(ctx.clone())));
     engine.register_executor::<Ex, _>(Arc::new(ExExec(ctx.clone())));
+    if ctx.cyc_events.load(std::sync::atomic::Ordering::SeqCst) {
+        let ids: std::collections::HashMap<qbice::query::QueryID, usize> =
+            (0..ctx.prog.n()).map(|i| (node_query_id(&ctx.prog, i), i + 1)).collect();
+        let ctx2 = ctx.clone();
+        qbice::verif::set_cycle_hook(Some(Arc::new(move |p: &qbice::verif::CycleProbe| {
+            let n = |q: &qbice::query::QueryID| ids.get(q).copied().unwrap_or(0);
+            ctx2.rec.push(crate::dsl::Event::Cyc {
+                callee: n(&p.callee),
+                target: n(&p.target),
+                edges: p.edges.iter().map(|(a, bs)| (n(a), bs.iter().map(&n).collect())).collect(),
+                found: p.found,
+            });
+        })));
+    } else {
+        qbice::verif::set_cycle_hook(None);
+    }
     Arc::new(engine)
 }
 
